@@ -1,2 +1,260 @@
-From Coq Require Import QArith List.
+(* Proofs about Model/Voronoi2D.v: invariances of the shoelace area, soundness of half-plane clipping (every vertex of the
+   clipped polygon lies in the Voronoi cell), equivariance of the cell predicate, product layouts. *)
+From Coq Require Import QArith Qminmax Qabs List Lia Lra Psatz Permutation Setoid.
 From MrVerif Require Import Model.Voronoi1D Model.Voronoi2D.
+Import ListNotations.
+Open Scope Q_scope.
+
+(* ---------- maps of the plane ---------- *)
+Definition tr (t p : pt) : pt := (fst p + fst t, snd p + snd t).
+(* x -> M x,  M = [[a b] [c d]] *)
+Definition lin (a b c d : Q) (p : pt) : pt := (a * fst p + b * snd p, c * fst p + d * snd p).
+
+Lemma last_indep {A} (b : A) l d1 d2 : last (b :: l) d1 = last (b :: l) d2.
+Proof. revert b. induction l as [|c l IH]; intros b; [reflexivity|]. change (last (c :: l) d1 = last (c :: l) d2). apply IH. Qed.
+
+Lemma last_cons_ne {A} (a b : A) l d : last (a :: b :: l) d = last (b :: l) a.
+Proof. change (last (b :: l) d = last (b :: l) a). apply last_indep. Qed.
+
+Lemma last_map_d {A B} (f : A -> B) l d : last (map f l) (f d) = f (last l d).
+Proof. induction l as [|a [|b l] IH]; try reflexivity. change (last (map f (a :: b :: l)) (f d)) with (last (map f (b :: l)) (f d)). rewrite IH. reflexivity. Qed.
+
+(* ---------- shoelace: linear maps ---------- *)
+Lemma cross_lin a b c d p q : cross (lin a b c d p) (lin a b c d q) == (a * d - b * c) * cross p q.
+Proof. unfold cross, lin. simpl. ring. Qed.
+
+Lemma path_sum_lin a b c d l : path_sum (map (lin a b c d) l) == (a * d - b * c) * path_sum l.
+Proof.
+  induction l as [|p [|q r] IH]; try (simpl; ring).
+  change (path_sum (map (lin a b c d) (p :: q :: r)))
+    with (cross (lin a b c d p) (lin a b c d q) + path_sum (map (lin a b c d) (q :: r))).
+  change (path_sum (p :: q :: r)) with (cross p q + path_sum (q :: r)).
+  rewrite IH, cross_lin. ring.
+Qed.
+
+Lemma shoelace2_lin a b c d l : shoelace2 (map (lin a b c d) l) == (a * d - b * c) * shoelace2 l.
+Proof.
+  destruct l as [|p r]; [simpl; ring|].
+  unfold shoelace2. change (map (lin a b c d) (p :: r)) with (lin a b c d p :: map (lin a b c d) r) at 1.
+  cbv iota beta.
+  change (lin a b c d p :: map (lin a b c d) r) with (map (lin a b c d) (p :: r)).
+  rewrite last_map_d, path_sum_lin, cross_lin. ring.
+Qed.
+
+Theorem area_lin a b c d l : area (map (lin a b c d) l) == Qabs (a * d - b * c) * area l.
+Proof. unfold area. rewrite shoelace2_lin, Qabs_Qmult. unfold Qdiv. ring. Qed.
+
+Theorem area_scale a l : area (map (lin a 0 0 a) l) == a * a * area l.
+Proof.
+  rewrite area_lin. assert (a * a - 0 * 0 == a * a) as -> by ring.
+  rewrite Qabs_pos; [reflexivity|]. destruct (Qlt_le_dec a 0); nra.
+Qed.
+
+Theorem area_rotation a b c d l : a * d - b * c == 1 -> area (map (lin a b c d) l) == area l.
+Proof. intros H. rewrite area_lin, H. simpl. ring. Qed.
+
+Theorem area_reflection a b c d l : a * d - b * c == -1 -> area (map (lin a b c d) l) == area l.
+Proof. intros H. rewrite area_lin, H. simpl. ring. Qed.
+
+(* ---------- shoelace: translations ---------- *)
+Lemma cross_tr t p q : cross (tr t p) (tr t q) == cross p q + cross t q - cross t p.
+Proof. unfold cross, tr. simpl. ring. Qed.
+
+Lemma path_sum_tr t a r :
+  path_sum (map (tr t) (a :: r)) == path_sum (a :: r) + cross t (last (a :: r) a) - cross t a.
+Proof.
+  revert a. induction r as [|b r IH]; intros a.
+  - simpl. ring.
+  - change (path_sum (map (tr t) (a :: b :: r))) with (cross (tr t a) (tr t b) + path_sum (map (tr t) (b :: r))).
+    change (path_sum (a :: b :: r)) with (cross a b + path_sum (b :: r)).
+    rewrite (IH b), cross_tr, (last_cons_ne a b r a), (last_indep b r a b). ring.
+Qed.
+
+Theorem shoelace2_translate t l : shoelace2 (map (tr t) l) == shoelace2 l.
+Proof.
+  destruct l as [|a r]; [reflexivity|].
+  unfold shoelace2. change (map (tr t) (a :: r)) with (tr t a :: map (tr t) r) at 1. cbv iota beta.
+  change (tr t a :: map (tr t) r) with (map (tr t) (a :: r)).
+  rewrite last_map_d, path_sum_tr, cross_tr. ring.
+Qed.
+
+Theorem area_translate t l : area (map (tr t) l) == area l.
+Proof. unfold area. rewrite shoelace2_translate. reflexivity. Qed.
+
+(* ---------- clipping ---------- *)
+Definition sat (g : hp) (x : pt) : Prop := hval g x <= 0.
+
+Lemma inside_true h x : inside h x = true <-> sat h x.
+Proof. unfold inside, sat. apply Qle_bool_iff. Qed.
+
+Lemma inside_false h x : inside h x = false -> 0 < hval h x.
+Proof.
+  unfold inside. intros H. apply Qnot_le_lt. intros C. apply Qle_bool_iff in C. congruence.
+Qed.
+
+Lemma hval_red g x y : hval g (Qred x, Qred y) == hval g (x, y).
+Proof. destruct g as [[ga gb] gc]. unfold hval. cbn [fst snd]. rewrite !Qred_correct. reflexivity. Qed.
+
+Lemma hval_inter g h s e :
+  ~ hval h s - hval h e == 0 ->
+  hval g (inter h s e) == (1 - hval h s / (hval h s - hval h e)) * hval g s + hval h s / (hval h s - hval h e) * hval g e.
+Proof.
+  intros Hne. unfold inter. cbv zeta. rewrite hval_red.
+  set (hs := hval h s) in *. set (he := hval h e) in *.
+  destruct g as [[ga gb] gc]. unfold hval. cbn [fst snd]. field. exact Hne.
+Qed.
+
+Lemma inter_on_boundary h s e : ~ hval h s - hval h e == 0 -> hval h (inter h s e) == 0.
+Proof. intros Hne. rewrite hval_inter by exact Hne. field. exact Hne. Qed.
+
+Lemma inter_sat g h s e : sat g s -> sat g e ->
+  (hval h s <= 0 /\ 0 < hval h e) \/ (0 < hval h s /\ hval h e <= 0) -> sat g (inter h s e).
+Proof.
+  unfold sat. intros Hs He Hside.
+  assert (~ hval h s - hval h e == 0) as Hne by (intros C; destruct Hside; lra).
+  rewrite hval_inter by exact Hne.
+  set (t := hval h s / (hval h s - hval h e)).
+  assert (0 <= t /\ t <= 1) as [T0 T1].
+  { unfold t. destruct Hside as [[A B]|[A B]].
+    - assert (hval h s / (hval h s - hval h e) == (- hval h s) / (hval h e - hval h s)) as -> by (field; lra).
+      split; [apply Qle_shift_div_l; lra | apply Qle_shift_div_r; lra].
+    - split; [apply Qle_shift_div_l; lra | apply Qle_shift_div_r; lra]. }
+  nra.
+Qed.
+
+Lemma inter_sat_self h s e :
+  (hval h s <= 0 /\ 0 < hval h e) \/ (0 < hval h s /\ hval h e <= 0) -> sat h (inter h s e).
+Proof.
+  intros Hside. unfold sat. rewrite inter_on_boundary; [apply Qle_refl|]. intros C. destruct Hside; lra.
+Qed.
+
+(* every emitted vertex lies in the clipping half-plane *)
+Lemma clip_edges_self h : forall l prev, Forall (sat h) (clip_edges h prev l).
+Proof.
+  induction l as [|cur r IH]; intros prev; simpl; [constructor|].
+  apply Forall_app. split; [|apply IH].
+  destruct (inside h prev) eqn:Ep, (inside h cur) eqn:Ec.
+  - constructor; [apply inside_true; exact Ec | constructor].
+  - constructor; [|constructor]. apply inter_sat_self. left. split; [apply inside_true; exact Ep | apply inside_false; exact Ec].
+  - constructor; [|constructor; [apply inside_true; exact Ec | constructor]].
+    apply inter_sat_self. right. split; [apply inside_false; exact Ep | apply inside_true; exact Ec].
+  - constructor.
+Qed.
+
+(* and keeps every half-plane constraint that the input vertices satisfied *)
+Lemma clip_edges_keep g h : forall l prev, sat g prev -> Forall (sat g) l -> Forall (sat g) (clip_edges h prev l).
+Proof.
+  induction l as [|cur r IH]; intros prev Hp Hl; simpl; [constructor|].
+  inversion Hl as [|? ? Hc Hr]; subst.
+  apply Forall_app. split; [|apply IH; assumption].
+  destruct (inside h prev) eqn:Ep, (inside h cur) eqn:Ec.
+  - constructor; [exact Hc | constructor].
+  - constructor; [|constructor]. apply inter_sat; auto. left. split; [apply inside_true; exact Ep | apply inside_false; exact Ec].
+  - constructor; [|constructor; [exact Hc | constructor]].
+    apply inter_sat; auto. right. split; [apply inside_false; exact Ep | apply inside_true; exact Ec].
+  - constructor.
+Qed.
+
+Lemma Forall_last {A} (P : A -> Prop) l d : P d -> Forall P l -> P (last l d).
+Proof. intros Hd H. induction H as [|a l Ha Hl IH]; [exact Hd|]. destruct l; [exact Ha | exact IH]. Qed.
+
+Lemma clip_self h l : Forall (sat h) (clip h l).
+Proof. destruct l; [constructor | apply clip_edges_self]. Qed.
+
+Lemma clip_keep g h l : Forall (sat g) l -> Forall (sat g) (clip h l).
+Proof.
+  intros H. destruct l as [|a r]; [constructor|]. unfold clip. apply clip_edges_keep; [|exact H].
+  apply Forall_last; [inversion H; assumption | exact H].
+Qed.
+
+Lemma cell_poly_keep g p others : forall box, Forall (sat g) box -> Forall (sat g) (cell_poly box p others).
+Proof.
+  unfold cell_poly. induction others as [|q r IH]; intros box H; simpl; [exact H|].
+  apply IH. apply clip_keep. exact H.
+Qed.
+
+Lemma cell_poly_sat p others : forall box q, In q others -> Forall (sat (bisector p q)) (cell_poly box p others).
+Proof.
+  unfold cell_poly. induction others as [|q0 r IH]; intros box q Hq; [destruct Hq|].
+  simpl. destruct Hq as [->|Hq].
+  - apply (cell_poly_keep (bisector p q) p r). apply clip_self.
+  - apply IH. exact Hq.
+Qed.
+
+Lemma bisector_dist p q x : hval (bisector p q) x == dist2 x p - dist2 x q.
+Proof. unfold hval, bisector, dist2. destruct p, q, x. simpl. ring. Qed.
+
+(* soundness: every vertex of the computed polygon lies in the Voronoi cell of p w.r.t. the other sites,
+   and inside every half-plane that bounds the start polygon *)
+Theorem cell_poly_sound box p others x : In x (cell_poly box p others) -> cell2 others p x.
+Proof.
+  intros Hx q Hq. pose proof (cell_poly_sat p others box q Hq) as H.
+  rewrite Forall_forall in H. specialize (H x Hx). unfold sat in H. rewrite bisector_dist in H. lra.
+Qed.
+
+Theorem cell_poly_in_box g box p others x : Forall (sat g) box -> In x (cell_poly box p others) -> sat g x.
+Proof. intros H Hx. pose proof (cell_poly_keep g p others box H) as K. rewrite Forall_forall in K. auto. Qed.
+
+(* ---------- the cell predicate ---------- *)
+Theorem cell2_perm P P' p x : Permutation P P' -> (cell2 P p x <-> cell2 P' p x).
+Proof.
+  intros HP. unfold cell2. split; intros H q Hq; apply H.
+  - apply (Permutation_in _ (Permutation_sym HP) Hq).
+  - apply (Permutation_in _ HP Hq).
+Qed.
+
+Lemma dist2_tr t x p : dist2 (tr t x) (tr t p) == dist2 x p.
+Proof. unfold dist2, tr. simpl. ring. Qed.
+
+Theorem cell2_translate t P p x : cell2 (map (tr t) P) (tr t p) (tr t x) <-> cell2 P p x.
+Proof.
+  unfold cell2. split; intros H q Hq.
+  - specialize (H (tr t q) (in_map _ _ _ Hq)). rewrite !dist2_tr in H. exact H.
+  - apply in_map_iff in Hq. destruct Hq as [q0 [<- Hq]]. rewrite !dist2_tr. apply H. exact Hq.
+Qed.
+
+(* similarity: M^T M = s I, s > 0  (s = 1: rotations and reflections;  M = a I, s = a^2: isotropic scaling) *)
+Lemma dist2_lin a b c d s x p : a * a + c * c == s -> b * b + d * d == s -> a * b + c * d == 0 ->
+  dist2 (lin a b c d x) (lin a b c d p) == s * dist2 x p.
+Proof.
+  intros H1 H2 H3. unfold dist2, lin. simpl.
+  assert (forall u v, (a * u + b * v) * (a * u + b * v) + (c * u + d * v) * (c * u + d * v)
+                      == (a * a + c * c) * (u * u) + (b * b + d * d) * (v * v) + 2 * (a * b + c * d) * (u * v)) as K by (intros; ring).
+  assert (a * fst x + b * snd x - (a * fst p + b * snd p) == a * (fst x - fst p) + b * (snd x - snd p)) as -> by ring.
+  assert (c * fst x + d * snd x - (c * fst p + d * snd p) == c * (fst x - fst p) + d * (snd x - snd p)) as -> by ring.
+  rewrite K, H1, H2, H3. ring.
+Qed.
+
+Theorem cell2_similarity a b c d s P p x :
+  a * a + c * c == s -> b * b + d * d == s -> a * b + c * d == 0 -> 0 < s ->
+  (cell2 (map (lin a b c d) P) (lin a b c d p) (lin a b c d x) <-> cell2 P p x).
+Proof.
+  intros H1 H2 H3 Hs. unfold cell2. split; intros H q Hq.
+  - specialize (H (lin a b c d q) (in_map _ _ _ Hq)). rewrite !(dist2_lin a b c d s) in H by assumption. nra.
+  - apply in_map_iff in Hq. destruct Hq as [q0 [<- Hq]]. rewrite !(dist2_lin a b c d s) by assumption.
+    specialize (H q0 Hq). nra.
+Qed.
+
+Theorem cell2_rotation a b c d P p x :
+  a * a + c * c == 1 -> b * b + d * d == 1 -> a * b + c * d == 0 ->
+  (cell2 (map (lin a b c d) P) (lin a b c d p) (lin a b c d x) <-> cell2 P p x).
+Proof. intros. apply (cell2_similarity a b c d 1); auto. reflexivity. Qed.
+
+Theorem cell2_scale a P p x : ~ a == 0 ->
+  (cell2 (map (lin a 0 0 a) P) (lin a 0 0 a p) (lin a 0 0 a x) <-> cell2 P p x).
+Proof.
+  intros Ha. apply (cell2_similarity a 0 0 a (a * a)); try ring.
+  destruct (Q_dec a 0) as [[L|G]|E]; [nra | nra | contradiction].
+Qed.
+
+(* product layouts: the 2-D cell is the product of the 1-D cells *)
+Theorem cell2_product X Y px py x y : In px X -> In py Y ->
+  (cell2 (list_prod X Y) (px, py) (x, y) <-> cell1 X px x /\ cell1 Y py y).
+Proof.
+  intros Hpx Hpy. unfold cell2, cell1, dist2. simpl. split.
+  - intros H. split; intros q Hq.
+    + specialize (H (q, py) (proj2 (in_prod_iff X Y q py) (conj Hq Hpy))). simpl in H. lra.
+    + specialize (H (px, q) (proj2 (in_prod_iff X Y px q) (conj Hpx Hq))). simpl in H. lra.
+  - intros [H1 H2] [qx qy] Hq. apply in_prod_iff in Hq. destruct Hq as [Hqx Hqy]. simpl.
+    specialize (H1 qx Hqx). specialize (H2 qy Hqy). lra.
+Qed.
